@@ -37,6 +37,13 @@ Definition inputs_closed (v : version) (seed : list fmeta) (c : cinputs) : bool 
       && (negb (Nat.eqb (ci_level c) 0)
           || forallb (fun f => negb (file_meets lo hi f) || mem_file f (ci_in0 c))
                      (level_files v O))
+      (* boundary closure of the parent inputs: a parent-level file that continues the user key
+         on which a chosen parent file ends is chosen too *)
+      && forallb (fun f =>
+                    mem_file f (ci_in1 c)
+                    || negb (existsb (fun g => bytes_eqb (ik_user (fm_small f)) (ik_user (fm_large g))
+                                               && ikey_ltb (fm_large g) (fm_small f)) (ci_in1 c)))
+                 (level_files v (S (ci_level c)))
   end.
 
 (** a version is well formed: levels >= 1 sorted and disjoint, bounds ordered, numbers unique *)
